@@ -13,8 +13,9 @@ import (
 func stabCheck(res *vs.Result, user any) []vs.Violation {
 	r := user.(*convRun)
 	var out []vs.Violation
-	if r.scn.NoFilter {
-		// lone sub-packages reach the handlers here: the reply oracle does not apply, only crashes and stability
+	if r.scn.NoFilter || len(r.scn.IdleMs) > 0 {
+		// lone sub-packages reach the handlers here (or, with a stalled transfer, re-requests are written whose content
+		// is C14's subject): the reply oracle does not apply, only crashes and stability
 		if out = baseViolations(res, serverIdle); len(out) > 0 {
 			return out
 		}
@@ -93,6 +94,17 @@ func c09Scenarios(thorough bool) []convScn {
 			out = append(out, convScn{Name: fmt.Sprintf("stab:incomplete:%d:nofilter=%v", i, nf), Conns: [][]tmsg{h}, Stab: true, Close: true, NoFilter: nf})
 		}
 	}
+	// a transfer that stalls for more than 5 s: the next frames make the server issue re-requests (0x8003) built from
+	// the first packet's header - the packet the callbacks were handed must not change with them
+	for i, h := range [][]tmsg{{frX, plain1}, {frX, frY, plain1, plain2}} {
+		idle := []int{0, 5001}
+		if len(h) == 4 {
+			idle = []int{0, 0, 5001, 5001}
+		}
+		for _, nf := range []bool{false, true} {
+			out = append(out, convScn{Name: fmt.Sprintf("stab:stalled:%d:nofilter=%v", i, nf), Conns: [][]tmsg{h}, IdleMs: idle, Stab: true, NoFilter: nf})
+		}
+	}
 	return out
 }
 
@@ -101,7 +113,7 @@ func init() {
 		ID:         "C09",
 		Level:      "model_checking",
 		SingleProc: true,
-		Rule: "one connection, 14 histories of 2..5 frames from {escape-free, escaped, fragmented pair (reassembled), fragmented+ordinary interleaved}, delivered one frame per read, two per read, every frame split in the middle (each read = tail of one frame + head of the next), and one per read followed by the terminal closing; plus 5 histories that leave a sub-package transfer incomplete when the terminal hangs up, with the sub-package filter on (the join callback holds packet 1) and off (every packet reaches the handlers); " +
+		Rule: "one connection, 14 histories of 2..5 frames from {escape-free, escaped, fragmented pair (reassembled), fragmented+ordinary interleaved}, delivered one frame per read, two per read, every frame split in the middle (each read = tail of one frame + head of the next), and one per read followed by the terminal closing; plus 5 histories that leave a sub-package transfer incomplete when the terminal hangs up, with the sub-package filter on (the join callback holds packet 1) and off (every packet reaches the handlers); plus 2 histories in which the transfer stalls for more than 5 s of virtual time and later frames make the server build re-requests from the first packet's header (filter on and off); " +
 			"recording handlers snapshot every delivered Message inside OnReadExecutionEvent and keep the pointer; ALL schedules of reader/writer/terminal within the deviation bound (2 quick, 3 thorough) are executed; " +
 			"at every later callback and at quiescence each kept Message is compared with its snapshot, and every reply on the socket with the reference reply of the snapshotted request. Then EVERY thread interleaving (no preemption bound) of every history above with the default environment answers (timers fire when nothing else can run, first ready select case (moving on to the next when the same select is met again), writes succeed), using a cache of happens-before state keys: each state is expanded once, every state and transition is executed at least once (not every path); the cache is validated per run by a self-test (cached search = every-schedule search on 20 programs that fail when a component of the key is removed) and by comparing a harness digest whenever a key is met again; the flag exhaustive refers to the deviation-bounded families; for the cached pass the counters unbounded_* say how many scenarios closed and how many stopped at the state limit (quick 20000 states, thorough 1000000). Non-trivial = schedule with >=1 deviation",
 		Assumptions: []string{"scheduling points at channel/socket/once operations; unsynchronised accesses are C18's subject"},
